@@ -26,7 +26,7 @@ PLAN = {
     "thorough": {"shards": 16, "shard_timeout": 3600, "case_timeout": 240, "configs": 1200, "envs": 6, "max_case_timeouts": 20},
 }
 THRESHOLDS = {
-    "quick": {"configurations_compared": 35, "child_runs": 140, "set:environments": 6, "repr:tree": 4, "repr:ge": 4, "repr:sge": 4, "repr:dsge": 4, "repr:stack": 4, "alg:gp": 5, "alg:rs": 3, "alg:hc": 3, "alg:opo": 3, "gp_crossover_heavy:dsge": 2, "tracker:bare": 5, "tracker:with-recorder": 5, "evaluations_traced": 2000, "distinct_programs_traced": 300},
+    "quick": {"configurations_compared": 35, "child_runs": 140, "set:environments": 6, "repr:tree": 4, "repr:ge": 4, "repr:sge": 4, "repr:dsge": 4, "repr:stack": 4, "alg:gp": 5, "alg:rs": 3, "alg:hc": 3, "alg:opo": 3, "gp_crossover_heavy:dsge": 5, "tracker:bare": 5, "tracker:with-recorder": 5, "focus:tree": 3, "focus:ge": 3, "focus:sge": 3, "focus:dsge": 3, "focus:stack": 3, "evaluations_traced": 2000, "distinct_programs_traced": 300},
     "thorough": {"configurations_compared": 380, "child_runs": 2200, "set:environments": 30},
 }
 REPRS = ["tree", "ge", "sge", "dsge", "stack"]
@@ -41,11 +41,28 @@ def gen_cases(tier, seed):
     a = [d for d in grammars.family(seed, n * 6, "general") if rich(d)]
     b = [d for d in grammars.family(seed + 5, n * 6, "weighted", with_fixed=False) if rich(d)]  # weighted grammars are rebuilt by update_weights
     descs = [x for pair in zip(a, b) for x in pair][:n]
+    yield from focus_cases(rng, [d for d in descs if len(d["prods"]) >= 5] or descs, 4 if tier == "quick" else 40)
     for i, desc in enumerate(descs):
         envs = []
         for e in range(PLAN[tier]["envs"]):
             envs.append({"hashseed": ["0", "1", "4242", "random"][e % 4] if e else "0", "malloc": rng.choice(["pymalloc", "malloc"]) if e else "pymalloc", "padding": [0, 1000, 50000, 7][e % 4], "import_perm": e * 7, "grammar_first": e % 2 == 1})
         yield {"desc": desc, "repr": REPRS[i % 5], "decider": rng.choice(["maxdepth", "pigrow", "full", "progressive"]), "alg": ["gp", "rs", "gp", "hc", "gp", "opo"][(i // 5) % 6], "seed": rng.randrange(10**6), "budget": rng.choice([20, 30, 40]), "pop": rng.choice([3, 4, 6]), "extra_depth": rng.choice([2, 3, 4]), "step": rng.choice(["default", "cx", "cx"]), "tracker": rng.choice(["default", "default", "bare", "with-recorder"]), "envs": envs}
+
+
+def _envs(rng, n):
+    return [{"hashseed": ["0", "1", "4242", "random"][e % 4] if e else "0", "malloc": rng.choice(["pymalloc", "malloc"]) if e else "pymalloc", "padding": [0, 1000, 50000, 7, 300, 12345][e % 6], "import_perm": e * 7, "grammar_first": e % 2 == 1} for e in range(n)]
+
+
+def focus_cases(rng, descs, per_repr):
+    """Variation-heavy GP runs for every representation under ALL environment variants: orders that depend on hashes
+    or addresses of type objects only matter once crossover / mutation meet several symbols, and flipping a two- or
+    three-element order takes several differently laid-out processes."""
+    k = 0
+    for r in REPRS:
+        for _ in range(per_repr):
+            desc = descs[k % len(descs)]
+            k += 1
+            yield {"desc": desc, "repr": r, "decider": rng.choice(["maxdepth", "pigrow"]), "alg": "gp", "seed": rng.randrange(10**6), "budget": rng.choice([50, 70]), "pop": rng.choice([6, 8]), "extra_depth": rng.choice([3, 4]), "step": "cx", "tracker": "default", "envs": _envs(rng, 6), "focus": True}
 
 
 def run_child(cfg, env):
@@ -92,6 +109,8 @@ def run_case(case, rec):
     wit = {"grammar": case["desc"]["name"], "repr": case["repr"], "decider": case["decider"], "alg": case["alg"], "step": case.get("step"), "tracker": case.get("tracker"), "seed": case["seed"], "budget": case["budget"]}
     if case["alg"] == "gp" and case.get("step") == "cx":
         rec.count(f"gp_crossover_heavy:{case['repr']}")
+    if case.get("focus"):
+        rec.count(f"focus:{case['repr']}")
     strs = "with-str-fields" if has_kind(case["desc"], "str") else "no-str-fields"
     for env, r in results:
         if not r["second_run_equal"]:
